@@ -84,6 +84,19 @@ Theorem C01_topic_chars :
 Proof. exact topic_chars. Qed.
 Print Assumptions C01_topic_chars.
 
+(* the path grammar loses nothing: for a topic made of characters of the second class and not ending in a
+   slash, the canonical path /session/<topic> (and its spellings without the leading or with a trailing slash)
+   has prefix "session" and exactly that topic *)
+Theorem C01_plain_topic_roundtrip :
+  forall t,
+    t <> "" -> all_chars cls_topic t = true -> ends_with_slash t = false ->
+    prefix_of_path (slashify ("/session/" ++ t)) = "session" /\
+    topic_of_path (slashify ("/session/" ++ t)) = t /\
+    prefix_of_path (slashify ("session/" ++ t)) = "session" /\
+    topic_of_path (slashify ("session/" ++ t ++ "/")) = t.
+Proof. exact plain_topic_roundtrip. Qed.
+Print Assumptions C01_plain_topic_roundtrip.
+
 (* non-vacuity: good bearer -> code 0 -> join on /session/t (and via the alias path "session/t/"); the same code
    again, another topic's path, no code and a non-session prefix are refused; a token whose exp equals the
    clock is refused by the session endpoint *)
